@@ -229,7 +229,9 @@ msgs.append(msg("Sink", sink_fields, oneofs=["first_choice", "SecondChoice"], co
 
 _num[0] = 0
 msgs.append(msg("Wrap", [
-    fld("Id", "string"),
+    # (a comment on the FIRST field of the LAST message: with the declarations reversed it sits at the indices of the dependency
+    # message's first field - comment look-ups must not cross files)
+    fld("Id", "string", comment=" identifier of the wrapper\n"),
     m("S", "Sink"),
     m("SV", "Inner", nullable="false"),
     fld("ByName", "message", typeName="Inner", card="map", mapKey="string"),
